@@ -195,6 +195,90 @@ def worker_samples(cfg, tier):
     return [o, Ob("twin.bounds_satisfiable", v, s, cfg, kind="vacuity")]
 
 
+def worker_evo(cfg, tier):
+    """rex.evo.evo_step around a stub strategy (evosax internals are outside the claim): the candidates evaluated are the ones the
+    strategy asked for, and the fitness handed to strategy.tell is the loss with NaN replaced by +inf (never NaN)"""
+    import jax
+    import jax.numpy as jnp
+    from rex import evo
+    from vlib import cg, jx, smt
+    from vlib.fixtures import oracle_callback
+
+    P, Dm = cfg["popsize"], 2
+
+    class StubStrategy:
+        popsize = P
+
+        def ask(self, rng, state, params):
+            x = jax.pure_callback(oracle_callback("ask", (P, Dm)), jax.ShapeDtypeStruct((P, Dm), jnp.float32), rng, state)
+            return x, state
+
+        def tell(self, x, fitness, state, params):
+            return jax.pure_callback(oracle_callback("tell", ()), jax.ShapeDtypeStruct((), jnp.float32), x, fitness, state)
+
+    def loss(x, transform, rng):
+        return jax.pure_callback(oracle_callback("loss", ()), jax.ShapeDtypeStruct((), jnp.float32), x, vmap_method="sequential")
+
+    solver = evo.EvoSolver(strategy_params=jnp.float32(0.0), strategy=StubStrategy(), strategy_name="stub")
+    alg = jx.FPAlg()
+    calls = cg.UFCalls()
+    # oracle results are free FP symbols here (FP sorts cannot be mixed into the Real/Int UF signature of UFCalls)
+    plain = cg.Calls()
+    it = jx.Interp(alg=alg, callback_handler=plain.handler)
+    tr = jx.Traced(lambda st, k: evo.evo_step(loss, solver, st, None, k), jnp.float32(0.0), jax.random.PRNGKey(0))
+    flat = tr.sym_inputs(it, "v")
+    (new_state, _), losses = tr.run(it, flat)
+    ask = plain.by_tag("oracle_ask")[0]
+    tell = plain.by_tag("oracle_tell")[0]
+    loss_calls = plain.by_tag("oracle_loss")
+    x_asked = ask["outs"][0]
+    obs = []
+    # candidates evaluated / told are exactly the asked ones
+    same_x = jx.sa_equal(alg, tell["args"][0], x_asked)
+    ev = [c["args"][0].flat() for c in loss_calls]
+    evaluated_ok = len(loss_calls) == P and all(all(a.eq(b) if jx.isz(a) else a == b for a, b in zip(ev[i], x_asked[i].flat())) for i in range(P))
+    obs.append(Ob("evo_step: the candidates evaluated and reported to the strategy are exactly the ones it asked for", "unsat" if (same_x is True and evaluated_ok) else "sat", 0, cfg,
+                  trivial=True, replayed=True, key="evo-candidates", what="evo_step evaluates or reports different candidates than the strategy asked for"))
+    raw = [c["outs"][0].item() for c in loss_calls]
+    fit = tell["args"][1].flat()
+    isnan, inf = z3.fpIsNaN, z3.fpPlusInfinity(alg.F32)
+    goal = z3.And(*[z3.And(z3.Not(isnan(alg.z(f, "f"))), z3.If(isnan(r), alg.z(f, "f") == inf, alg.z(f, "f") == r)) for f, r in zip(fit, raw)])
+    v, m, s = smt.check([], goal, 60)
+    o = Ob("evo_step: the fitness handed to strategy.tell is the loss with NaN replaced by +inf (never NaN)", v, s, cfg, key="evo-nan", what="evo_step hands NaN fitness values to the evolution strategy")
+    if v == "sat":
+        o.replayed = _replay_evo()
+    obs.append(o)
+    ret = [alg.z(x, "f") for x in losses.flat()]
+    v, m, s = smt.check([], z3.And(*[a == r for a, r in zip(ret, raw)]), 60)
+    obs.append(Ob("evo_step: the returned per-candidate losses are the raw losses", v, s, cfg, key="evo-losses", what="evo_step returns altered losses", replayed=None))
+    return obs
+
+
+def _replay_evo():
+    import jax
+    import jax.numpy as jnp
+    from rex import evo
+
+    try:
+        seen = {}
+
+        class S:
+            popsize = 3
+
+            def ask(self, rng, state, params):
+                return jnp.arange(6, dtype=jnp.float32).reshape(3, 2), state
+
+            def tell(self, x, fitness, state, params):
+                seen["fit"] = np.asarray(fitness)
+                return state
+
+        solver = evo.EvoSolver(strategy_params=jnp.float32(0.0), strategy=S(), strategy_name="stub")
+        evo.evo_step(lambda x, t, r: jnp.where(x[0] > 1.0, jnp.nan, x[0]), solver, jnp.float32(0.0), None, jax.random.PRNGKey(0))
+        return bool(np.isnan(seen["fit"]).any())
+    except BaseException:  # noqa
+        return None
+
+
 def configs(tier):
     if tier == "quick":
         return [dict(N=4, elite=0.5, leaves=["a"]), dict(N=4, elite=0.25, leaves=["a", "b"])]
@@ -214,11 +298,15 @@ def run(rep):
     rep.bounds = dict(num_samples=sorted({c["N"] for c in cfgs}), elite_portion=sorted({c["elite"] for c in cfgs}), param_leaves="scalar and 2-vector")
     rep.assumptions = ["previous best-so-far loss is not NaN (initial +inf; preservation is itself an obligation)",
                        "one iteration from an arbitrary previous state: monotone/minimal/attained follow for cem() by induction over iterations",
-                       "evolutionary strategies (rex.evo, evosax internals) are outside the claim",
+                       "evolutionary strategies: candidate generation, elite selection and best-so-far tracking happen inside evosax and are outside the claim; only rex's own evo_step glue "
+                       "(candidates evaluated = candidates asked, NaN -> +inf before tell) is decided, around a stub strategy",
                        "jax.random.normal is replaced by an oracle returning arbitrary reals (gaussian_samples obligation)"]
     rep.stubs = ["jax.random.normal -> fresh symbols (pjit name _normal)"]
     obs = pmap("props.c18", "worker_update", cfgs, rep.tier)
     obs += pmap("props.c18", "worker_samples", [dict(leaves=["a", "b"])], rep.tier)
+    from rex import evo
+    rep.encode(evo.evo_step)
+    obs += pmap("props.c18", "worker_evo", [dict(popsize=3)], rep.tier)
     rep.add_all(obs)
 
 
